@@ -14,7 +14,7 @@ Fixpoint string_of_str (s : str) : string :=
 Definition dec_ctx (t : str) : ctx :=
   if tok_is t "paren" then CParen else if tok_is t "cmdsubst" then CCmdSubst
   else if tok_is t "backquote" then CBackquote else if tok_is t "pipefirst" then CPipeFirst
-  else if tok_is t "pipelast" then CPipeLast else if tok_is t "background" then CBackground
+  else if tok_is t "pipelast" then CPipeLast else if tok_is t "pipemid" then CPipeMid else if tok_is t "background" then CBackground
   else if tok_is t "procin" then CProcSubstIn else if tok_is t "procout" then CProcSubstOut
   else CCoproc.
 
@@ -31,6 +31,20 @@ Fixpoint dec_mut (fuel : nat) (a : list str) : mut * list str :=
           else if tok_is t "L" then match r with z :: r' => (MUlimit (dec_Z z), r') | [] => (MExit 0, []) end
           else if tok_is t "X" then match r with z :: r' => (MExit (dec_Z z), r') | [] => (MExit 0, []) end
           else if tok_is t "R" then match r with z :: r' => (MReturn (dec_Z z), r') | [] => (MExit 0, []) end
+          else if tok_is t "B" then
+            match r with
+            | h :: n :: r' =>
+                let '(body, r'') :=
+                  (fix go (k : nat) (a : list str) : list mut * list str :=
+                     match k with
+                     | O => ([], a)
+                     | S k' => let '(x, a') := dec_mut fuel a in
+                               let '(xs, a'') := go k' a' in (x :: xs, a'')
+                     end) (dec_nat n) r' in
+                (MBg (if tok_is h "fg" then CollFg else if tok_is h "none" then CollNone else if tok_is h "jobs" then CollJobs
+                      else if tok_is h "pid" then CollWaitPid else if tok_is h "spec" then CollWaitSpec else CollWait) body, r'')
+            | _ => (MExit 0, [])
+            end
           else if tok_is t "C" then
             match r with
             | n :: r' =>
